@@ -640,7 +640,7 @@ def expr_key(e):
 
 def scan_scope(rel, scope_name, funcs, sites):
     """funcs: all FunctionDef/Lambda nodes of one closure scope (an outer function with its nested handlers, or a class)"""
-    tainted, containers, none_names = set(), set(), set()
+    tainted, containers, containers2, none_names = set(), set(), set(), set()  # containers2: X where X[i] is itself a container of elements
     seeds = []
     sub_first = set()
     for f in funcs:
@@ -660,7 +660,16 @@ def scan_scope(rel, scope_name, funcs, sites):
     if not seeds:
         return
 
+    def holds_elements(e):
+        """e denotes a container whose ITEMS are elements: a tracked container, or X[i] for a container of containers"""
+        if isinstance(e, ast.Subscript):
+            k = expr_key(e.value)
+            return isinstance(e.value, (ast.Name, ast.Attribute)) and k is not None and k in containers2
+        k = expr_key(e)
+        return k is not None and k in containers
+
     def is_t(e):
+        """can the value of `e` BE an element?  (a container of elements tested for emptiness is not)"""
         if e is None:
             return False
         if isinstance(e, ast.IfExp):
@@ -668,13 +677,11 @@ def scan_scope(rel, scope_name, funcs, sites):
         if isinstance(e, ast.Call) and isinstance(e.func, ast.Name) and e.func.id == "cast" and len(e.args) == 2:
             return is_t(e.args[1])
         if isinstance(e, ast.Call) and isinstance(e.func, ast.Attribute) and e.func.attr in ("pop", "popleft", "get"):
-            k = expr_key(e.func.value)
-            return k is not None and (k in containers or k in tainted)
+            return holds_elements(e.func.value) or is_t(e.func.value)
         if isinstance(e, (ast.Tuple, ast.List)):
             return False  # a freshly built container is never falsy-by-element
         if isinstance(e, ast.Subscript):
-            k = expr_key(e.value)
-            return k is not None and (k in containers or k in tainted)
+            return holds_elements(e.value) or (isinstance(e.value, (ast.Name, ast.Attribute)) and expr_key(e.value) in tainted)
         k = expr_key(e)
         return k is not None and k in tainted
 
@@ -703,14 +710,19 @@ def scan_scope(rel, scope_name, funcs, sites):
                         if k is None:
                             continue
                         if is_t(v):
-                            (containers if isinstance(t, ast.Subscript) else tainted).add(k)
+                            if isinstance(t, ast.Subscript):
+                                (containers2 if isinstance(t.value, ast.Subscript) else containers).add(k)
+                            else:
+                                tainted.add(k)
                         if isinstance(v, ast.Constant) and v.value is None and isinstance(t, ast.Name):
                             none_names.add(k)
+                if isinstance(node, (ast.For, ast.comprehension)) and isinstance(node.target, ast.Name) and holds_elements(node.iter):
+                    tainted.add(node.target.id)  # a loop variable over a container of elements is an element
                 if isinstance(node, ast.Call) and isinstance(node.func, ast.Attribute) and node.func.attr in ("append", "add", "put", "appendleft", "insert"):
                     if any(is_t(a) for a in node.args):
                         k = expr_key(node.func.value)
                         if k:
-                            containers.add(k)
+                            (containers2 if isinstance(node.func.value, ast.Subscript) else containers).add(k)
         # what a seed function returns / what is emitted downstream is element-like
         for f, ps in seeds:
             for node in ast.walk(f):
@@ -749,7 +761,7 @@ def scan_scope(rel, scope_name, funcs, sites):
                 if isinstance(op, (ast.Is, ast.IsNot, ast.Eq, ast.NotEq)):
                     if (is_t(l) and is_none(r)) or (is_t(r) and is_none(l)):
                         add("is-none", f, node, node)
-                if isinstance(op, (ast.In, ast.NotIn)) and is_none(l) and (is_t(r) or expr_key(r) in containers):
+                if isinstance(op, (ast.In, ast.NotIn)) and is_none(l) and (is_t(r) or holds_elements(r)):
                     add("none-sentinel", f, node, node)
             if isinstance(node, ast.BoolOp) and isinstance(node.op, ast.Or) and is_t(node.values[0]):
                 add("or-default", f, node, node)
